@@ -9,6 +9,8 @@ from . import fl
 from .fl import SFloat
 from .vals import SArr, SList, SStr, SObj, interned_strings, sel
 
+import sys
+sys.setrecursionlimit(200000)
 _OBS = []
 _CFG = {}
 
@@ -101,6 +103,8 @@ def extract_witness(m, inputs, entry_heap):
             out[name] = [_val_scalar(m, x) for x in v]
         elif k in ("func", "obj"):
             out[name] = {"kind": k}
+        elif k == "const":
+            out[name] = v
         else:
             out[name] = _val_scalar(m, v)
     return out
